@@ -308,3 +308,86 @@ func Empty() {
 	rt.Assert("full/complement/then-add/len", z.Len() == 1)
 	rt.Reach("empty/done")
 }
+
+// ---- one step from an arbitrary valid state (covers histories of any length) ----
+
+// mkState builds a set whose list holds n nodes with arbitrary bounds, assuming only the
+// representation invariant that AddRange maintains: 0 <= Begin_i <= End_i < Begin_{i+1} <= MaxCP,
+// links consistent, sentinels in place. (Adjacent intervals, End_i + 1 == Begin_{i+1}, are
+// allowed: AddRange does not merge them.)
+func mkState(prefix string, n int, hi rune) (*set.Set, []iv) {
+	s := set.NewSet()
+	var ivs []iv
+	prev := &s.Head
+	last := rune(-1)
+	for i := 0; i < n; i++ {
+		b := rt.Rune(fmt.Sprintf("%sB%d", prefix, i))
+		e := rt.Rune(fmt.Sprintf("%sE%d", prefix, i))
+		rt.Assume(rt.And(last < b, b <= e, e <= hi))
+		last = e
+		nd := &set.Node{Begin: b, End: e, Backward: prev}
+		prev.Forward = nd
+		prev = nd
+		ivs = append(ivs, iv{b, e})
+	}
+	if n > 0 {
+		prev.Forward = &s.Tail
+		s.Tail.Backward = prev
+	}
+	return s, ivs
+}
+
+// wellFormed checks the representation invariant by walking the list both ways.
+func wellFormed(s *set.Set, hi rune) bool {
+	ok := true
+	if s.Head.Forward == nil {
+		return s.Tail.Backward == nil
+	}
+	count := 0
+	last := rune(-1)
+	nd := s.Head.Forward
+	prev := &s.Head
+	for nd != nil && nd.Forward != nil {
+		ok = rt.And(ok, last < nd.Begin, nd.Begin <= nd.End, nd.End <= hi, nd.Backward == prev)
+		last = nd.End
+		prev = nd
+		nd = nd.Forward
+		count++
+		if count > 8 {
+			return false
+		}
+	}
+	return rt.And(ok, nd == &s.Tail, s.Tail.Backward == prev, count > 0)
+}
+
+// Step: from any valid state with n intervals, one AddRange with arbitrary arguments keeps the
+// invariant and yields exactly the union.
+func Step(n int) {
+	s, ivs := mkState("s", n, MaxCP)
+	r := newRange("r", MaxCP)
+	s.AddRange(r.b, r.e)
+	rt.Assert("step/invariant", wellFormed(s, MaxCP))
+	x := probe("x", MaxCP)
+	got := s.Has(x)
+	rt.ObserveBool("has", got)
+	rt.Assert("step/has", got == rt.Or(in(ivs, x), in([]iv{r}, x)))
+	rt.Reach("step/done")
+}
+
+// StepOps: every read-only operation on an arbitrary valid state (small universe for Len).
+func StepOps(n int) {
+	s, ivs := mkState("s", n, LU)
+	rt.Assert("state/len", s.Len() == card(ivs, LU))
+	c := s.Copy()
+	rt.Assert("state/copy/invariant", wellFormed(c, LU) || n == 0)
+	lim := probe("lim", LU)
+	if n > 0 {
+		rt.Assume(ivs[len(ivs)-1].e <= lim)
+	}
+	k := s.Complement(lim)
+	x := probe("x", LU)
+	rt.Assert("state/complement/has", k.Has(x) == rt.And(x <= lim, rt.Not(in(ivs, x))))
+	rt.Assert("state/complement/len", k.Len() == int(lim)+1-card(ivs, LU))
+	rt.Assert("state/equal-copy", s.Equal(c))
+	rt.Reach("stepops/done")
+}
